@@ -315,7 +315,7 @@ func Check() *common.Check {
 		ID:    "C20",
 		Level: "exploration",
 		Rule: "every (input family, entry point) pair of the two catalogues in checks/c20/families.go and entries.go; a case is one pair, measured at every size of " +
-			"n = 8, 10 .. 64 and n = 2^4, 2^5, ... (quick: up to 2^14 elements and 512 KiB, regular-expression scanners 16 KiB; thorough: Tokenize and Parse up to the 10 MiB input / 1M token limits, other entry points up to 1 MiB); " +
+			"n = 8, 10 .. 64 and n = 2^4, 2^5, ... (quick: up to 2^14 elements and 512 KiB, regular-expression scanners 16 KiB; thorough: Tokenize and Parse up to the 10 MiB input / 1M token limits, other entry points up to 1 MiB, regular-expression scanners 256 KiB); " +
 			"distinct = distinct (family, entry point); non-trivial = the entry point accepted the input at >= 3 sizes of the doubling ladder and executed >= 10^5 basic blocks at the largest one " +
 			"(so the two-doublings rule was really evaluated on it), or the case was found super-linear. After a violation the ladder ends at the first call above 5e7 (thorough 3e8) block executions; " +
 			"as a cap (exhaustive:false) it ends when one call exceeds 20 s",
@@ -449,8 +449,16 @@ stages:
 			if !e.Thorough() && en.quickBytes > 0 && len(sql) > en.quickBytes && len(cur) >= 3 {
 				break
 			}
-			if e.Thorough() && !en.toLimit && len(sql) > 1<<20 && len(cur) >= 3 {
-				break // thorough: only Tokenize and Parse go up to the limits, the other entry points to 1 MiB
+			if e.Thorough() && !en.toLimit && len(cur) >= 3 {
+				// thorough: only Tokenize and Parse go up to the limits, the other entry points to 1 MiB
+				// (the regular-expression scanners, ~10^3 counted blocks per byte, to 256 KiB)
+				lim := 1 << 20
+				if en.thoroughBytes > 0 {
+					lim = en.thoroughBytes
+				}
+				if len(sql) > lim {
+					break
+				}
 			}
 			var call func() string
 			ok := true
@@ -555,7 +563,8 @@ stages:
 			// After a violation the ladder goes on while a call stays cheap, so that a second,
 			// independent culprit (one that needs larger sizes to pass the floor) is reported by the
 			// same run instead of appearing only after the first one has been repaired.
-			if violated && (p.total() > budget || p.Alloc > 2*budget) {
+			// (allocation: the next size would allocate 4x as much with the collector switched off)
+			if violated && (p.total() > budget || p.Alloc > 1<<27) {
 				break stages
 			}
 			if p.wall > 20*time.Second {
